@@ -53,32 +53,29 @@ def affine_rotation_matrix(matrix: Tensor) -> Tensor:
         raise TypeError("affine_rotation_matrix() 'matrix' must be Tensor")
     if matrix.ndim < 2 or matrix.shape[-2] != 3 or matrix.shape[-1] not in (3, 4):
         raise ValueError("affine_rotation_matrix() 'matrix' must have shape (..., 3, 3|4)")
-    matrix = matrix[..., :3].clone()
+    # Columns are kept as separate tensors (no in-place writes into the matrix), such that the result is differentiable.
+    col0, col1, col2 = matrix[..., :3].unbind(dim=-1)
     # Compute X scale factor and normalize 1st column.
-    sx: Tensor = torch.linalg.norm(matrix[..., 0], ord=2, dim=-1)
-    matrix[..., 0] = matrix[..., 0].div(sx.unsqueeze(-1))
+    sx: Tensor = torch.linalg.norm(col0, ord=2, dim=-1)
+    col0 = col0.div(sx.unsqueeze(-1))
     # Compute XY shear factor and make 2nd column orthogonal to 1st.
-    tansxy = matrix[..., 0].mul(matrix[..., 1]).sum(dim=-1)
-    matrix[..., 1] = matrix[..., 1].sub(matrix[..., 0].mul(tansxy.unsqueeze(-1)))
-    # Actually, tansxy and 2nd column are still to large by a factor of sy.
-    # Now, compute Y scale and normalize 2nd column and rescale tansxy.
-    sy: Tensor = torch.linalg.norm(matrix[..., 1], ord=2, dim=-1)
-    matrix[..., 1] = matrix[..., 1].div(sy.unsqueeze(-1))
-    tansxy = tansxy.div(sy)
+    tansxy = col0.mul(col1).sum(dim=-1)
+    col1 = col1.sub(col0.mul(tansxy.unsqueeze(-1)))
+    # Now, compute Y scale and normalize 2nd column.
+    sy: Tensor = torch.linalg.norm(col1, ord=2, dim=-1)
+    col1 = col1.div(sy.unsqueeze(-1))
     # Compute XZ and YZ shears, orthogonalize 3rd column.
-    tansxz = matrix[..., 0].mul(matrix[..., 2]).sum(dim=-1)
-    matrix[..., 2] = matrix[..., 2].sub(matrix[..., 0].mul(tansxz.unsqueeze(-1)))
-    tansyz = matrix[..., 1].mul(matrix[..., 2]).sum(dim=-1)
-    matrix[..., 2] = matrix[..., 2].sub(matrix[..., 1].mul(tansyz.unsqueeze(-1)))
-    # Actually, tansxz, tansyz and 2nd column are still too large by a factor of sz.
-    # Next, get Z scale, normalize 3rd column and scale tansxz and tansyz.
-    sz: Tensor = torch.linalg.norm(matrix[..., 2], ord=2, dim=-1)
-    matrix[..., 2] = matrix[..., 2].div(sz.unsqueeze(-1))
-    tansxz = tansxz.div(sz)
-    tansyz = tansyz.div(sz)
+    tansxz = col0.mul(col2).sum(dim=-1)
+    col2 = col2.sub(col0.mul(tansxz.unsqueeze(-1)))
+    tansyz = col1.mul(col2).sum(dim=-1)
+    col2 = col2.sub(col1.mul(tansyz.unsqueeze(-1)))
+    # Next, get Z scale and normalize 3rd column.
+    sz: Tensor = torch.linalg.norm(col2, ord=2, dim=-1)
+    col2 = col2.div(sz.unsqueeze(-1))
+    matrix = torch.stack([col0, col1, col2], dim=-1)
     # At this point, the columns are orthonormal. Check for a coordinate system flip.
     # If the determinant is -1, then negate the matrix (and the scaling factors).
-    mask = matrix[..., 0].mul(matrix[..., 1].cross(matrix[..., 2], dim=-1)).sum(dim=-1).ge(0)
+    mask = col0.mul(col1.cross(col2, dim=-1)).sum(dim=-1).ge(0)
     mask = mask.unsqueeze(-1).unsqueeze(-1).expand_as(matrix)
     matrix = matrix.where(mask, -matrix)
     return matrix
